@@ -2696,9 +2696,11 @@ def cmpxchg(info, a, b):
     c = eax
     if a.get_size() != 32: c = ExprSlice(eax, 0, a.get_size())
     cond = a-c
-    e.append(ExprAff(zf, ExprCond(cond,
-                                 ExprInt_from(zf, 0),
-                                 ExprInt_from(zf, 1))))
+    # the flags are those of 'cmp accumulator, destination'
+    res = ExprOp('-', c, a)
+    e+=update_flag_arith(res)
+    e+=update_flag_sub(c, a, res)
+    e+=update_flag_af(res)
     # on failure the accumulator is loaded with the destination
     e.append(ExprAff(c, ExprCond(cond,
                                  a,
